@@ -93,6 +93,22 @@ def targeted(rng, scen):
             opts.append((num, uint() if num not in (9, 15, 35, 39, 3) else G.rbytes(rng, rng.randint(0, 12))))
         if rng.random() < 0.15:
             opts.append((rng.choice([2, 10, 13, 29, 65001, 65535]), G.rbytes(rng, rng.randint(0, 4))))   # unknown, some critical
+    if scen != "cli" and rng.random() < 0.25:
+        # a block-wise request the way a peer would really send it (with or without Size1): NUM, M, SZX chosen freely
+        szx = rng.choice([0, 0, 1, 2, 6, 7])
+        num = rng.choice([0, 0, 1, 2, 3, 1000, 2 ** 20 - 1])
+        m = rng.randint(0, 1)
+        v = num << 4 | m << 3 | szx
+        blk = v.to_bytes(3, "big").lstrip(b"\0")
+        opts = [(11, rng.choice([b"b", b"b", b"r", b"o"])), (rng.choice([27, 27, 23, 19, 31]), blk)]
+        if rng.random() < 0.4:
+            opts.append((60, bytes([rng.choice([16, 32, 48, 200])])))
+        if rng.random() < 0.2:
+            opts.append((292, G.rbytes(rng, rng.randint(0, 8))))
+        opts.sort(key=lambda o: o[0])
+        bs = 16 << min(szx, 6)
+        pl = G.rbytes(rng, rng.choice([bs, bs, bs - 1, bs + 1, 1, 0]))
+        return G.encode("udp", rng.choice([0, 0, 1]), rng.choice([2, 3, 3, 5, 1]), mid, tok, opts, pl)
     opts.sort(key=lambda o: o[0])
     pl = b"" if rng.random() < 0.5 else G.rbytes(rng, rng.choice([1, 15, 16, 17, 32, 64]))
     if code == 0 and rng.random() < 0.6:
